@@ -164,7 +164,7 @@ def main():
         "setup_cmd": "./check --build-all",
         "hooks": {
             "guard": "verif",
-            "enable": "go test -c -tags verif -vet=off -overlay <generated at check time: harness files into the package under test, engine as virtual packages massnet.org/mass/zz_verif/*, time->vtime import rewrite for the miner/fractal packages> run from /repo's working tree (see ./check)",
+            "enable": "go test -c -tags verif -vet=off -overlay <generated at check time: harness files into the package under test, engine as virtual packages massnet.org/mass/zz_verif/*, time->vtime import rewrite for the miner/fractal packages, sync->vsync import rewrite for the capacity keeper, one overlay-only dial option in fractal/connection> run from /repo's working tree (see ./check)",
             "baseline_off_cmd": BASELINE_OFF,
             "source_commits": hooks_commits,
             "add_only": True,
